@@ -152,6 +152,8 @@ def jobs(tier):
         add(C=2, N=2, SUSP=1, lock=True, pause=0, K=4, fl=fl)
         add(C=2, N=2, SUSP=0, lock=False, pause=1, K=3, fl=fl)
         add(C=2, N=(1 if q else 2), SUSP=1, lock=True, pause=1, K=4, fl=fl)
+    add(C=2, N=2, SUSP=1, lock=True, pause=0, fl="adual")
+    add(C=2, N=1, SUSP=2, lock=True, pause=1, fl="adual")
     if not q:
         add(C=4, N=1, SUSP=1, lock=True, pause=0, fl="acls")
         add(C=4, N=1, SUSP=0, lock=False, pause=1, fl="acls")
